@@ -42,7 +42,7 @@ MonInit == [cfg |-> [assocs |-> <<>>], sc |-> "", viol |-> <<>>,
             runA |-> 0,             \* association of the outstanding request
             ghost |-> FALSE]        \* the outstanding request belongs to an association that has been removed: its end
                                     \* (answer, timeout) is not reported to anybody
-V(m, reason, l, ctx) == [m EXCEPT !.viol = Append(@, Viol("C19", reason, l, m.sc, ctx))]
+V(m, reason, l, ctx) == [m EXCEPT !.viol = IF Len(@) >= 300 THEN @ ELSE Append(@, Viol("C19", reason, l, m.sc, ctx))]
 
 Quiet(cfg) == \A i \in 1..Len(cfg.assocs) : ~cfg.assocs[i].dis /\ ~cfg.assocs[i].integ /\ ~cfg.assocs[i].en
                                              /\ cfg.assocs[i].tsync = ""
